@@ -1465,7 +1465,12 @@ def gen_fmt_names(ctx):
              b"heads/a b", b"heads/\xc3\xa9", b"heads/a.lockx", b"heads/.lock", b"a/b.lock.lock", b"refs/heads/x" * 20]
     allnames = list(dict.fromkeys(fixed + single + exh + toks + rnd))
     if ctx.thorough:
-        gitset = allnames
+        # the whole exhaustive set, every single-byte probe, and a 40 k sample of token/random names
+        # (about 85 k `git check-ref-format` processes, 16-way parallel)
+        core_set = list(dict.fromkeys(fixed + single + exh))
+        seen = set(core_set)
+        rest = [n for n in allnames if n not in seen]
+        gitset = core_set + rng.sample(rest, min(len(rest), 40000))
     else:
         short = [n for n in exh if len(n) <= 2]
         pool = [n for n in allnames if len(n) > 2]
